@@ -28,6 +28,13 @@ pub fn noop_atomic_waker_wake(_: &futures::task::AtomicWaker) {}
 #[cfg(kani)]
 pub fn noop_atomic_waker_register(_: &futures::task::AtomicWaker, _: &Waker) {}
 
+/// tracing's `log` fallback (a formatted line per span event when no subscriber is installed) and
+/// field recording: logging environment, not the subject.
+#[cfg(kani)]
+pub fn noop_span_log(_: &tracing::Span, _: &str, _: log::Level, _: std::fmt::Arguments<'_>) {}
+#[cfg(kani)]
+pub fn noop_record_all<'a>(s: &'a tracing::Span, _: &tracing::field::ValueSet<'_>) -> &'a tracing::Span { s }
+
 /// The application's handler: stays Pending for `left` polls, then answers `body`.
 struct H { pend: u8, body: u32 }
 struct HFut { left: u8, body: u32 }
@@ -107,6 +114,7 @@ fn scenario(pend: u8, drop_after: usize, abort_at: usize) {
         assert!(s.responses == 1 && s.resp_id == id && s.resp_body == body);
         assert!(s.cancels == 0);
         witness!(pend >= 1, "handler completed after being pending");
+        witness!(true, "reached: the handler completed");
     } else if aborted && (abort_at as u64) <= pend as u64 + 1 {
         // the channel aborted the handler before it could finish (it has released the request
         // itself): no response, no cancellation, the handler makes no further progress
@@ -115,6 +123,7 @@ fn scenario(pend: u8, drop_after: usize, abort_at: usize) {
         assert!(s.cancels == 0);
         assert!(unsafe { HANDLER_POLLS } + 1 == abort_at);
         witness!(abort_at >= 2, "aborted after the handler had started");
+        witness!(true, "reached: aborted by the channel");
     } else if !aborted {
         // abandoned by the application (never executed, or dropped while the handler was pending):
         // exactly one cancellation with this request's id tells the channel to release it; no response
@@ -123,6 +132,7 @@ fn scenario(pend: u8, drop_after: usize, abort_at: usize) {
         assert!(s.cancels == 1 && s.cancel_id == id, "an abandoned request was not released");
         witness!(drop_after >= 1, "dropped after the handler had started");
         witness!(drop_after == 0, "dropped without execute");
+        witness!(true, "reached: abandoned by the application");
     }
 }
 
@@ -142,6 +152,8 @@ macro_rules! exec_harnesses {
             #[cfg_attr(kani, kani::stub(<core::task::wake::Waker as core::ops::Drop>::drop, super::verif_overlay_exec::noop_waker_drop))]
             #[cfg_attr(kani, kani::stub(futures::task::AtomicWaker::wake, super::verif_overlay_exec::noop_atomic_waker_wake))]
             #[cfg_attr(kani, kani::stub(futures::task::AtomicWaker::register, super::verif_overlay_exec::noop_atomic_waker_register))]
+            #[cfg_attr(kani, kani::stub(tracing::span::Span::log, super::verif_overlay_exec::noop_span_log))]
+            #[cfg_attr(kani, kani::stub(tracing::span::Span::record_all, super::verif_overlay_exec::noop_record_all))]
             pub fn $name() $body
         )*
         pub const HARNESSES: &[(&str, fn())] = &[ $( (stringify!($name), $name as fn()) ),* ];
